@@ -165,6 +165,8 @@ class Check:
     # ------------------------------------------------------------------ models
     def model(self, subdir: str, module: str, cfg: str | None = None, **kw) -> dict:
         """Run an Impl => Contract TLC model; failure is a machinery failure (the model does not depend on /repo)."""
+        if os.environ.get("VERIF_OPT_PASS"):        # the optimized pass re-runs the drivers only; models were checked by the parent
+            return {"module": module, "cfg": cfg or "", "states": 0, "distinct": 0, "depth": 0, "wall_s": 0.0, "actions": {}, "ok": True, "violated": None}
         st = tlc.run_model(subdir, module, cfg, rundir=self.rundir, **kw)
         self.cov["states"] += st["distinct"]
         self.cov["transitions"] += st["states"]
@@ -178,6 +180,8 @@ class Check:
     def sensitivity(self, subdir: str, module: str, consts: str, name: str, *, what: str, prop: bool = False, timeout: int = 600) -> None:
         """Model-level mutation guard: with the constants of a known-bad implementation variant (the pinned tree's behaviour kept as a
         constant of the implementation-shaped spec) TLC must find `name` violated - otherwise the contract has lost its teeth."""
+        if os.environ.get("VERIF_OPT_PASS"):
+            return
         path = os.path.join(self.rundir, f"S_{module}_{name}_{abs(hash(consts)) % 99991}.cfg")
         with open(path, "w") as f:
             f.write("SPECIFICATION Spec\n" + consts + ("PROPERTY " if prop else "INVARIANT ") + name + "\nCHECK_DEADLOCK FALSE\n")
@@ -191,6 +195,8 @@ class Check:
         antecedent of a property, or 'no state with X'): if TLC finishes without violating it, the property it guards was
         checked on nothing and the model run proves nothing -> machinery failure."""
         from concurrent.futures import ThreadPoolExecutor
+        if os.environ.get("VERIF_OPT_PASS"):
+            return
 
         def one(name):
             path = os.path.join(self.rundir, f"W_{module}_{name}_{abs(hash(consts)) % 99991}.cfg")
@@ -277,7 +283,7 @@ class Check:
                 continue
             rp = dict(v["replay"])
             rp.update({"property": self.pid, "signature": v["signature"], "what": v["what"], "seed": self.seed,
-                       "tier": self.tier, "repo_head": repo_head()})
+                       "tier": self.tier, "repo_head": repo_head(), "python_optimize": int(sys.flags.optimize)})
             name = f"{self.pid}-{stable_id(v['signature'], v['what'], self.seed)}.json"
             path = os.path.join(VERIF, "replays", name)
             with open(path, "w") as f:
@@ -299,7 +305,8 @@ class Check:
         ev = {"property_id": self.pid, "tier": self.tier, "seed": self.seed, "level": self.level, "coverage": cov,
               "assumptions": self.assumptions, "wall_s": round(time.time() - self.t0, 2), "violations": nviol,
               "known_findings": self.known, "repo_head": repo_head()}
-        with open(os.path.join(VERIF, "evidence", f"{self.pid}.json"), "w") as f:
+        evdir = self.rundir if os.environ.get("VERIF_OPT_PASS") else os.path.join(VERIF, "evidence")
+        with open(os.path.join(evdir, f"{self.pid}.json"), "w") as f:
             json.dump(ev, f, indent=1, default=str)
         for ln in lines:
             print(ln)
@@ -348,5 +355,6 @@ def split(data: bytes, cuts: list[int]) -> list[bytes]:
     for c in cuts:
         out.append(data[p:p + c])
         p += c
-    assert p == len(data), (p, len(data))
+    if p != len(data):
+        raise ValueError((p, len(data)))
     return out
